@@ -103,6 +103,7 @@ class TensorNames(metaclass=Singleton):
         if not isinstance(expr, Expr):
             raise Inputerror("Expr needs to be provided as Expr instance.")
 
+        all_subs = []
         for field in fields(self):
             new = getattr(self, field.name)
             if field.default == new:  # nothing to do
@@ -125,8 +126,15 @@ class TensorNames(metaclass=Singleton):
             else:
                 subs = [(field.default, new)]
 
-            for old, new in subs:
-                expr.rename_tensor(old, new)
+            all_subs.extend(subs)
+        # The new name of a tensor might be the default name of another
+        # tensor (e.g. when swapping two names)
+        # -> rename all tensors simultaneously using temporary names
+        temporary = [f"tmpname{i}" for i in range(len(all_subs))]
+        for (old, _), tmp in zip(all_subs, temporary):
+            expr.rename_tensor(old, tmp)
+        for (_, new), tmp in zip(all_subs, temporary):
+            expr.rename_tensor(tmp, new)
         return expr
 
 
